@@ -104,14 +104,18 @@ RpExpected(ins, i, off, b, en) ==
 (* For every out_range [b, e) - including ranges that cut through an input     *)
 (* packet - the output carries exactly the extensions of the selected audio     *)
 (* frames, each on the output frame that holds its audio frame (i - b), with     *)
-(* identical payloads and the per-frame order preserved.  The driver only cats   *)
-(* packets that are accepted and whose padding is a well-formed extension list   *)
-(* (both are re-checked here, so the obligation cannot hold vacuously).          *)
+(* identical payloads and the per-frame order preserved.  Packets whose cat was  *)
+(* refused (e.g. more than 120 ms) add no frames; the driver builds paddings     *)
+(* that are well-formed extension lists and a range inside the accepted frames   *)
+(* (re-checked here, so the obligation cannot hold vacuously).                   *)
 RpOK(e) ==
-  /\ \A i \in 1..Len(e["in"]) : e["in"][i].cat = 0 /\ ParseRaw(e["in"][i].pad, e["in"][i].m).ok
+  LET ins == SelectSeq(e["in"], LAMBDA p : p.cat = 0) IN
+  /\ Len(ins) >= 1
+  /\ \A i \in 1..Len(ins) : ParseRaw(ins[i].pad, ins[i].m).ok
+  /\ 0 <= e.b /\ e.b < e.e /\ e.e <= SumSeq([i \in 1..Len(ins) |-> ins[i].m])
   /\ e.r > 0
   /\ e.m = e.e - e.b
-  /\ GenRoundTrip(RpExpected(e["in"], 1, 0, e.b, e.e), e.m, e.pad)
+  /\ GenRoundTrip(RpExpected(ins, 1, 0, e.b, e.e), e.m, e.pad)
 
 CaseOK == LET e == Tr[l] IN
           CASE e.k = "parse" -> ParseOK(e)
